@@ -1305,3 +1305,23 @@ def toplevel_fdecl_and_lexical(prog):
     sloppy-direct-eval defect: such functions do not see the eval code's own lexical declarations)."""
     b = prog['body']
     return any(st[0] == 'fdecl' for st in b) and any(st[0] == 'decl' and st[1] in ('let', 'const') for st in b)
+
+
+def lexical_decl_in_dead_code(x, dead=False):
+    """A let/const declaration in a statically unreachable position (after an unconditional
+    break/continue/return/throw in the same statement list)."""
+    if isinstance(x, list):
+        d = dead
+        for y in x:
+            if lexical_decl_in_dead_code(y, d):
+                return True
+            if isinstance(y, tuple) and y and y[0] in ('break', 'continue', 'return', 'throw'):
+                d = True
+        return False
+    if isinstance(x, dict):
+        return lexical_decl_in_dead_code(x.get('body', []), False)
+    if not isinstance(x, tuple) or not x:
+        return False
+    if x[0] == 'decl' and x[1] in ('let', 'const') and dead:
+        return True
+    return any(lexical_decl_in_dead_code(z, dead) for z in x if isinstance(z, (tuple, list, dict)))
